@@ -5,6 +5,8 @@ package main
 
 import (
 	"context"
+	"crypto/hmac"
+	"crypto/sha256"
 	"encoding/base64"
 	"encoding/json"
 	"fmt"
@@ -111,7 +113,13 @@ func (p *CEwi) EventId() string  { return p.id }
 func (p *CEwi) HmacSalt() []byte { return p.salt }
 func (p *CEwi) HmacInfo() []byte { return p.info }
 
-var cWrappers = []string{"", "w1", "w2", "w3", "w4"}
+var cWrappers = []string{"", "w1", "w2", "w3", "w4", "w5", "w6", "w7"}
+
+// wrapper 5 reports the KEY ID of wrapper 1 but holds a different key (a rotation may keep the id)
+// wrappers 6 and 7 have no key id at all (the empty id), and different keys
+var cKeyIDs = map[int]string{5: "w1", 6: "", 7: ""}
+
+const nWrappers = 7
 
 // -1 nil, 0 empty (non-nil), 1..3 values of one length, 4 a shorter and 5 a longer one
 func poolBytes(kind string, i int) []byte {
@@ -144,7 +152,13 @@ func cWrapper(i int) wrapping.Wrapper {
 	if i <= 0 {
 		return nil
 	}
-	return newAead(cWrappers[i])
+	w := newAead(cWrappers[i])
+	if id, ok := cKeyIDs[i]; ok {
+		if _, err := w.SetConfig(context.Background(), wrapping.WithKeyId(id)); err != nil {
+			panic(err)
+		}
+	}
+	return w
 }
 
 func bstrLit(i int) string { // salt / info / datum as the model sees it
@@ -174,7 +188,7 @@ type attribution struct {
 // every candidate key: the four wrappers and what NewEventWrapper derives from each for the three event ids
 func keyCands() []keyCand {
 	var out []keyCand
-	for w := 1; w <= 4; w++ {
+	for w := 1; w <= nWrappers; w++ {
 		out = append(out, keyCand{w, keyBytes(cWrappers[w])})
 		for e := 1; e <= 3; e++ {
 			out = append(out, keyCand{w*1000 + e, deriveEventKey(keyBytes(cWrappers[w]), fmt.Sprintf("Ev-%d", e))})
@@ -211,7 +225,7 @@ func attributeHmac(s string, orig []byte, did int, keys []keyCand, ship bool) (s
 	for _, k := range keys {
 		for si := 0; si <= poolMax; si++ { // nil and empty are the same HKDF salt: 0 stands for both
 			for ii := 0; ii <= poolMax; ii++ {
-				if hmacFramed(k.key, poolBytes("salt", si), poolBytes("info", ii), orig) == s {
+				if hmacFramedCached(k, si, ii, orig) == s {
 					framed := "[]"
 					if ship {
 						framed = hexLit([]byte(s))
@@ -223,6 +237,21 @@ func attributeHmac(s string, orig []byte, did int, keys []keyCand, ship bool) (s
 		}
 	}
 	return "VUnknown", attribution{}
+}
+
+// the HKDF expansion of every candidate (key, salt, info) is computed once
+var hkdfCache = map[[3]int][]byte{}
+
+func hmacFramedCached(k keyCand, si, ii int, data []byte) string {
+	id := [3]int{k.id, si, ii}
+	dk, ok := hkdfCache[id]
+	if !ok {
+		dk = hkdfSHA256(k.key, poolBytes("salt", si), poolBytes("info", ii), 32)
+		hkdfCache[id] = dk
+	}
+	m := hmac.New(sha256.New, dk)
+	m.Write(data)
+	return "hmac-sha256:" + base64.RawURLEncoding.EncodeToString(m.Sum(nil))
 }
 
 func rotOpts(o COp) []encrypt.Option {
@@ -366,7 +395,7 @@ func execCrypto(c CCase) cresult {
 				default:
 					fs := outFields(out.Payload)
 					// the bytes of blob / mac / text go to Coq (Base64.v framing check) for the special cases and for the first event of a history
-					ship := c.Gen != "random" || !shipped
+					ship := c.Gen == "special" || !shipped
 					shipped = true
 					items := make([]string, len(fs))
 					for i, s := range fs {
@@ -497,16 +526,16 @@ func (g *gen) cryptoCase(n int) CCase {
 	r := g.r
 	pick := func() int { return r.Intn(len(dataPool)) }
 	comp := func() int { return r.Intn(poolMax+2) - 1 } // -1 nil, 0 empty, 1..5
-	c := CCase{Gen: "random", Init: COp{W: r.Intn(5), S: comp(), I: comp()}}
+	c := CCase{Gen: "random", Init: COp{W: r.Intn(nWrappers + 1), S: comp(), I: comp()}}
 	if r.Chance(4, 5) && c.Init.W == 0 {
-		c.Init.W = 1 + r.Intn(4)
+		c.Init.W = 1 + r.Intn(nWrappers)
 	}
 	for i := 0; i < n; i++ {
 		switch x := r.Intn(10); {
 		case x < 2:
-			c.Ops = append(c.Ops, COp{K: "rotate", W: r.Intn(5), S: comp(), I: comp()})
+			c.Ops = append(c.Ops, COp{K: "rotate", W: r.Intn(nWrappers + 1), S: comp(), I: comp()})
 		case x < 4:
-			c.Ops = append(c.Ops, COp{K: "rotpayload", W: r.Intn(5), S: comp(), I: comp()})
+			c.Ops = append(c.Ops, COp{K: "rotpayload", W: r.Intn(nWrappers + 1), S: comp(), I: comp()})
 		default:
 			o := COp{K: "event", S: -1, I: -1, Data: []int{pick(), pick(), pick(), pick(), pick()}}
 			if r.Chance(1, 6) {
@@ -549,7 +578,16 @@ func cryptoSpecials() []CCase {
 			{K: "event", EWI: true, EvID: 2, S: 3, I: 3, Data: all(d)},
 			{K: "event", TM: true, S: -1, I: -1, Data: all(d)}}})
 	}
-	out = append(out, CCase{Gen: "special", Init: COp{W: 0, S: -1, I: -1}, Ops: []COp{
+	// rotations (payload and Rotate) to a wrapper with the SAME key id and another key, and back
+	out = append(out, CCase{Gen: "scenario", Init: COp{W: 1, S: 1, I: 1}, Ops: []COp{
+		{K: "event", S: -1, I: -1, Data: all(1)}, {K: "rotpayload", W: 5, S: -1, I: -1}, {K: "event", S: -1, I: -1, Data: all(1)}, {K: "event", EWI: true, EvID: 1, S: -1, I: -1, Data: all(1)},
+		{K: "rotate", W: 1, S: -1, I: -1}, {K: "event", S: -1, I: -1, Data: all(1)}, {K: "rotate", W: 5, S: -1, I: -1}, {K: "event", S: -1, I: -1, Data: all(1)},
+		{K: "rotpayload", W: 1, S: 2, I: -1}, {K: "event", S: -1, I: -1, Data: all(1)}}})
+	// the same with wrappers that have no key id at all
+	out = append(out, CCase{Gen: "scenario", Init: COp{W: 6, S: 1, I: 1}, Ops: []COp{
+		{K: "event", S: -1, I: -1, Data: all(1)}, {K: "rotpayload", W: 7, S: 2, I: -1}, {K: "event", S: -1, I: -1, Data: all(1)}, {K: "event", EWI: true, EvID: 2, S: -1, I: -1, Data: all(1)},
+		{K: "rotate", W: 6, S: -1, I: -1}, {K: "event", S: -1, I: -1, Data: all(1)}, {K: "rotpayload", W: 1, S: -1, I: -1}, {K: "event", S: -1, I: -1, Data: all(1)}}})
+	out = append(out, CCase{Gen: "scenario", Init: COp{W: 0, S: -1, I: -1}, Ops: []COp{
 		{K: "event", S: -1, I: -1, Data: all(1)}, {K: "event", EWI: true, EvID: 1, S: -1, I: -1, Data: all(1)},
 		{K: "rotpayload", W: 3, S: -1, I: -1}, {K: "event", S: -1, I: -1, Data: all(1)}, {K: "event", EWI: true, EvID: 3, S: -1, I: -1, Data: all(1)}}})
 	// two filters built from the same salt / info slices: rotating one (to a shorter, an equally long, a longer value, and back
